@@ -177,9 +177,13 @@ def run(repo: Repo, L: Ledger, tier: str):
                 sorted_var = n.targets[0].id
         names_var = names_def[0].targets[0].id if names_def else None
         body = loops[0].body
-        if is_name(a0, sorted_var) and is_name(a1, names_var) and len(body) == 1 and isinstance(body[0], ast.Assign):
+        if is_name(a0, sorted_var) and is_name(a1, names_var) and isinstance(loops[0].target, ast.Tuple) and len(loops[0].target.elts) == 2:
             tv, nv = (e.id for e in loops[0].target.elts)
-            ok3c = norm(body[0]) == f"{tv}.name = {nv}"
+            # exactly one store of a name in the loop, unconditional, and nothing that skips or stops an iteration; other
+            # statements (counters, logging) do not matter
+            name_stores = [x for x in walk_shallow(loops[0]) if isinstance(x, ast.Assign | ast.AugAssign) and any(isinstance(t, ast.Attribute) and t.attr == "name" for t in (x.targets if isinstance(x, ast.Assign) else [x.target]))]
+            jumps = [x for x in walk_shallow(loops[0]) if isinstance(x, ast.Continue | ast.Break | ast.Return)]
+            ok3c = len(name_stores) == 1 and any(name_stores[0] is b_ for b_ in body) and norm(name_stores[0]) == f"{tv}.name = {nv}" and not jumps
     if not ok3c and len(loops) == 1 and isinstance(loops[0].iter, ast.Call) and dotted(loops[0].iter.func) == "enumerate" and names_def:
         # for i, s in enumerate(by_size): s.name = names[i]
         it = loops[0].iter
